@@ -95,14 +95,41 @@ theorem body_cases (rq : Req) (hasp : ∀ e, rq.asPy = .raises e → isA G e .Ex
     | blocks => left; simp [hr]
     | raises e => right; simp [hr, (guard_exception e (hasp e ha)).1]
 
+theorem guard_resolveConvert : ∀ e : Exc,
+    (isA G e .StopIteration = true ∨ isA G e .OSError = true ∨ isA G e .ValueError = true) →
+    caught G G.resolveConvert e = true ∨ isA G e .ValueError = true := by
+  intro e; cases e <;> decide
+
+/-- whatever the pointer and the region hold, `resolve_shm_batch` returns or raises a ValueError -/
+theorem resolveStep_sane (rq : Req)
+    (hres : ∀ e, rq.resolve = .raises e → isA G e .ValueError = true) (hresb : rq.resolve ≠ .blocks)
+    (hdes : ∀ e, rq.deser = .raises e → isA G e .StopIteration = true ∨ isA G e .OSError = true ∨ isA G e .ValueError = true) :
+    resolveStep G rq ≠ .blocks ∧ ∀ e, resolveStep G rq = .raises e → isA G e .ValueError = true := by
+  unfold resolveStep
+  cases hr : rq.resolve with
+  | blocks => exact absurd hr hresb
+  | raises e => exact ⟨by simp, fun e' he => by simp at he; subst he; exact hres e hr⟩
+  | ok =>
+    cases hd : rq.deser with
+    | ok => exact ⟨by simp, fun e' he => by simp at he⟩
+    | blocks => exact ⟨by simp, fun e' he => by simp at he⟩
+    | raises e =>
+      refine ⟨by simp only; split <;> simp, fun e' he => ?_⟩
+      rcases guard_resolveConvert e (hdes e hd) with hc | hv
+      · simp [hc] at he; subst he; decide
+      · by_cases hc : caught G G.resolveConvert e = true
+        · simp [hc] at he; subst he; decide
+        · simp [hc] at he; subst he; exact hv
+
 theorem resolveBody_cases (rq : Req) (b : Bool) (sane : Spec.PrimitivesSane G rq) :
     resolveBody G rq b = .ok () ∨ resolveBody G rq b = .raises .RpcError := by
-  obtain ⟨_, _, hres, hresb, hrel, hasp, _, _, _⟩ := sane
+  obtain ⟨_, _, hres0, hresb0, hdes, hrel, hasp, _, _, _⟩ := sane
+  obtain ⟨hresb, hres⟩ := resolveStep_sane rq hres0 hresb0 hdes
   have hb := body_cases rq hasp
   unfold resolveBody
   by_cases hbp : (b && rq.isPointer) = true
   · simp only [hbp, if_true]
-    cases hr : rq.resolve with
+    cases hr : resolveStep G rq with
     | blocks => exact absurd hr hresb
     | raises e => right; simp [(guard_value e (hres e hr)).1]
     | ok =>
@@ -167,7 +194,7 @@ theorem readRequest_wf (rq : Req) (wf : Spec.WellFramed rq) (sane : Spec.Primiti
 theorem serveOne_wf (rq : Req) (wf : Spec.WellFramed rq) (sane : Spec.PrimitivesSane G rq) :
     Spec.AnsweredAndServing (serveOne G rq) := by
   have hrr := readRequest_wf rq wf sane
-  obtain ⟨hopen, halloc, _, _, _, _, hver, hval, hcall⟩ := sane
+  obtain ⟨hopen, halloc, _, _, _, _, _, hver, hval, hcall⟩ := sane
   have hatt := attachStep_sane rq hopen halloc
   have r1 : (G.readRequestTry.find? fun h => caught G h.1 .RpcError) = some ([.VersionError, .RpcError], false) := by decide
   have r2 : (G.readRequestTry.find? fun h => caught G h.1 .VersionError) = some ([.VersionError, .RpcError], false) := by decide
@@ -252,12 +279,20 @@ theorem body_noblock (T : Tables) (rq : Req) : body T rq ≠ .blocks := by
   unfold body
   (repeat' split) <;> simp
 
-theorem resolveBody_noblock (T : Tables) (rq : Req) (b : Bool) (hr : rq.resolve ≠ .blocks) : resolveBody T rq b ≠ .blocks := by
+theorem resolveStep_noblock (T : Tables) (rq : Req) (hr : rq.resolve ≠ .blocks) : resolveStep T rq ≠ .blocks := by
+  unfold resolveStep
+  cases h : rq.resolve with
+  | blocks => exact absurd h hr
+  | raises e => simp
+  | ok => simp only; (repeat' split) <;> simp
+
+theorem resolveBody_noblock (T : Tables) (rq : Req) (b : Bool) (hr0 : rq.resolve ≠ .blocks) : resolveBody T rq b ≠ .blocks := by
   have hb := body_noblock T rq
+  have hr := resolveStep_noblock T rq hr0
   unfold resolveBody
   by_cases hbp : (b && rq.isPointer) = true
   · simp only [hbp, if_true]
-    cases h : rq.resolve with
+    cases h : resolveStep T rq with
     | blocks => exact absurd h hr
     | raises e => simp only; split <;> simp
     | ok =>
@@ -330,13 +365,16 @@ theorem tables_guarded :
     (∀ e : Exc, (isA Tables.gen e .ValueError = true ∨ isA Tables.gen e .StructError = true) →
       caught Tables.gen Tables.gen.attachConvert e = true) ∧
     (∀ e ∈ Gen.C05.allocInitRaises, isA Tables.gen e .ValueError = true ∨ isA Tables.gen e .StructError = true) ∧
+    (∀ e : Exc, (isA Tables.gen e .StopIteration = true ∨ isA Tables.gen e .OSError = true ∨ isA Tables.gen e .ValueError = true) →
+      caught Tables.gen Tables.gen.resolveConvert e = true ∨ isA Tables.gen e .ValueError = true) ∧
+    (∀ e : Exc, isA Tables.gen e .ValueError = true → caught Tables.gen Gen.C05.drainFreeGuard e = true) ∧
     caught Tables.gen Tables.gen.traceDecode .UnicodeDecodeError = true ∧
     caught Tables.gen Tables.gen.firstRead .StopIteration = true ∧ caught Tables.gen Tables.gen.firstRead .IPCError = true ∧
     Tables.gen.firstReadDrains = true ∧ caught Tables.gen Tables.gen.drainSkips .IPCError = true ∧
     caught Tables.gen Tables.gen.firstDrainSkips .IPCError = true ∧
     caught Tables.gen Tables.gen.firstDrainEnds .StopIteration = true ∧
     caught Tables.gen Tables.gen.firstDrainEnds .IPCError = false :=
-  ⟨Aux.guard_exception, Aux.guard_attach, Aux.guard_value, Aux.guard_convert, by decide, by decide, by decide, by decide, by decide, by decide, by decide,
+  ⟨Aux.guard_exception, Aux.guard_attach, Aux.guard_value, Aux.guard_convert, by decide, Aux.guard_resolveConvert, (by intro e; cases e <;> decide), by decide, by decide, by decide, by decide, by decide, by decide,
    by decide, by decide⟩
 
 /-- `Spec.WellFramedAnswered`: every well-framed request — any metadata, columns, rows, segment names, pointer values;
@@ -395,13 +433,13 @@ represent, satisfies the hypotheses -/
 example : Spec.WellFramed
       { openStream := .ok, firstRead := .ok, laterReads := [.raises .IPCError, .ok], hasMethod := true, methodText := true,
         version := .current, traceparent := .undecodable, tracestate := .absent, shmName := .text, shmSize := .numeric,
-        isPointer := true, staticShm := false, shmOpen := .raises .FileNotFoundError, allocInit := .raises .StructError, resolve := .ok, release := .ok,
+        isPointer := true, staticShm := false, shmOpen := .raises .FileNotFoundError, allocInit := .raises .StructError, resolve := .ok, deser := .raises .StopIteration, release := .ok,
         ncols := 2, rows := 0, asPy := .raises .OverflowError, isTransportOptions := false, methodKnown := true,
         versionCheck := .ok, validate := .raises .TypeError, call := .ok } ∧
     Spec.PrimitivesSane Tables.gen
       { openStream := .ok, firstRead := .ok, laterReads := [.raises .IPCError, .ok], hasMethod := true, methodText := true,
         version := .current, traceparent := .undecodable, tracestate := .absent, shmName := .text, shmSize := .numeric,
-        isPointer := true, staticShm := false, shmOpen := .raises .FileNotFoundError, allocInit := .raises .StructError, resolve := .ok, release := .ok,
+        isPointer := true, staticShm := false, shmOpen := .raises .FileNotFoundError, allocInit := .raises .StructError, resolve := .ok, deser := .raises .StopIteration, release := .ok,
         ncols := 2, rows := 0, asPy := .raises .OverflowError, isTransportOptions := false, methodKnown := true,
         versionCheck := .ok, validate := .raises .TypeError, call := .ok } := by
   refine ⟨⟨rfl, Or.inl rfl, by simp⟩, ?_⟩
